@@ -715,6 +715,10 @@ class StmtMixin(ContractMixin):
         ends = self.exec_block(s.body, [body_st])
         # symbols created inside the body must not be re-used afterwards (capture in summaries)
         st.nfresh = max([st.nfresh] + [e.nfresh for e in ends])
+        for e in ends:
+            for ax in e.ghost.get("__loop_axioms__", ()):
+                if not any(ax.eq(a) for a in st.axioms):
+                    st.axioms.append(ax)     # closed facts about per-iteration callee results (see apply_contract)
         effects, seen = [], set()
         raises = []
         for e in ends:
